@@ -1,23 +1,25 @@
 #!/bin/bash
-# seedsweep.sh [seed names...]: run every kept seed against the check of its property, in an ISOLATED copy
-# (/tmp/sweep/verif + a scratch worktree /tmp/sweep/repo), so that /repo and /verif stay usable meanwhile.
-# Output: /tmp/sweep/results.txt, one line per seed.  (development helper; nothing registered depends on it)
+# seedsweep.sh <worker> <nworkers>: run every kept seed (those with index % nworkers == worker) against the check of its
+# property, in an ISOLATED copy (/tmp/sweep<w>/verif + a scratch worktree /tmp/sweep<w>/repo), so that /repo and /verif
+# stay usable meanwhile.  Output: /tmp/sweep<w>/results.txt, one line per seed.  (development helper)
 set -u
-S=/tmp/sweep
+W=${1:-0}; N=${2:-1}
+S=/tmp/sweep$W
 mkdir -p $S
 rsync -a --delete --exclude cache --exclude harness/target --exclude .git /verif/ $S/verif/
 [ -d $S/repo ] && git -C /repo worktree remove --force $S/repo
 git -C /repo worktree add -q --detach $S/repo HEAD
 sed -i "s#path = \"/repo\"#path = \"$S/repo\"#" $S/verif/harness/Cargo.toml
 cp /repo/Cargo.lock $S/verif/harness/Cargo.lock 2>/dev/null
-seeds=${@:-$(ls /verif/seeded)}
 : > $S/results.txt
-for sd in $seeds; do
+k=0
+for sd in $(ls /verif/seeded); do
+  k=$((k+1)); [ $((k % N)) -eq $W ] || continue
   d=/verif/seeded/$sd; pid=${sd%%-*}
   p=$d/patch.diff; [ -f $d/patch_rebased.diff ] && p=$d/patch_rebased.diff
   if ! git -C $S/repo apply $p 2>/dev/null; then echo "$sd NOAPPLY" >> $S/results.txt; continue; fi
   t0=$(date +%s)
-  out=$(RXRUST_REPO=$S/repo timeout 3000 python3 $S/verif/tools/check.py $pid --tier quick 2>&1); rc=$?
+  out=$(RXRUST_REPO=$S/repo VERIF_TLC_WORKERS=4 timeout 3000 python3 $S/verif/tools/check.py $pid --tier quick 2>&1); rc=$?
   git -C $S/repo checkout -q -- .
   echo "$sd rc=$rc $(( $(date +%s) - t0 ))s $(echo "$out" | grep -E 'pipeline' | head -1 | cut -c1-150) :: $(echo "$out" | tail -1 | cut -c1-120)" >> $S/results.txt
 done
